@@ -1,12 +1,28 @@
 #!/bin/bash
-# usage: tools_seed_eval.sh <patch.diff> <PROP> [tier]   -- applies a seeded change to /repo, runs the check, reverts
+# usage: tools_seed_eval.sh <patch.diff> <PROP> [tier] [seed-id]
+# applies a seeded change to /repo, runs the check, reverts /repo, restores the evidence file of the clean tree and
+# files the replays / output of the seeded run under seeded/<seed-id>/caught_by_<PROP>_<tier>/
 set -u
-patch=$1; prop=$2; tier=${3:-quick}
+patch=$1; prop=$2; tier=${3:-quick}; sid=${4:-$prop}
 cd /verif
 git -C /repo diff --quiet || { echo "/repo not clean"; exit 3; }
 git -C /repo apply "$patch" || { echo "patch does not apply"; exit 3; }
 git -C /repo diff --stat | tail -1
-./check $prop --tier $tier 2>&1 | grep -v "^WARNING" | tail -8
-rc=${PIPESTATUS[0]}
+cp evidence/$prop.json /dev/shm/ev_$prop.$$ 2>/dev/null
+ls replays > /dev/shm/rp_before.$$
+out=/dev/shm/seed_out.$$
+./check $prop --tier $tier > $out 2>&1
+rc=$?
 git -C /repo checkout -- .
+dest=seeded/$sid/caught_by_${prop}_$tier
+rm -rf $dest; mkdir -p $dest
+grep -v "^WARNING" $out | cut -c1-600 | tail -40 > $dest/check_output.txt
+echo "exit=$rc" >> $dest/check_output.txt
+n=0
+for f in $(ls replays | grep -vxFf /dev/shm/rp_before.$$); do
+  n=$((n+1)); if [ $n -le 3 ]; then mv replays/$f $dest/; else rm replays/$f; fi
+done
+[ -f /dev/shm/ev_$prop.$$ ] && mv /dev/shm/ev_$prop.$$ evidence/$prop.json
+rm -f /dev/shm/rp_before.$$ $out
+grep -v "^WARNING" $dest/check_output.txt | cut -c1-300 | tail -6
 git -C /repo diff --quiet && echo "reverted; check exit=$rc"
